@@ -3,8 +3,10 @@ package main
 import (
 	"fmt"
 	"go/ast"
+	"go/constant"
 	"go/token"
 	"go/types"
+	"regexp"
 	"strings"
 )
 
@@ -918,4 +920,129 @@ func rulePruneDescend(c *Ctx, r *Report) {
 		r.Check(got[shape], "ygot.pruneBranchesInternal:descends:"+shape, c.Pos(f.Decl.Pos()), "recursive call on the children held in a "+shape,
 			"pruneBranchesInternal never calls itself on children held in a "+shape+": empty containers below that kind of field (e.g. created by BuildEmptyTree) survive PruneEmptyBranches")
 	}
+}
+
+// ---- R-DECIMAL-LEXICAL (C18) -------------------------------------------------------------------
+
+// ruleDecimalLexical: strconv.ParseFloat accepts NaN, Inf, exponents, hexadecimal floats and
+// digit separators; a decimal64 is [+-]digits[.digits] (RFC 7950 §9.3.1). The decimal64 arm of the
+// JSON decoder may return a parsed value only after the string matched a pattern, and the pattern
+// (a constant of the repository, evaluated here with the standard regexp package) must accept
+// exactly that lexical form on a table of witnesses.
+func ruleDecimalLexical(c *Ctx, r *Report) {
+	r.Rule("R-DECIMAL-LEXICAL", "the decimal64 arm of ytypes.sanitizeJSON returns a parsed value only where a regular expression matched the string, and that (constant) expression accepts [+-]digits[.digits] and rejects NaN, Inf, exponent, hexadecimal and separator forms", 2)
+	f := c.MustFunc(r, "ytypes", "sanitizeJSON")
+	if f == nil {
+		return
+	}
+	info := f.Info()
+	var arm *Arm
+	for _, t := range KindSwitches(f, yangKind) {
+		if a := t.ByKey["yang.Ydecimal64"]; a != nil {
+			arm = a
+		}
+	}
+	if arm == nil {
+		r.Und("ytypes.sanitizeJSON:decimal64:lexical", c.Pos(f.Decl.Pos()), "decimal64 arm not found")
+		return
+	}
+	var pattern string
+	havePattern := false
+	okAll, n := true, 0
+	for _, rs := range returnsOf(arm.Node) {
+		if len(rs.Results) != 2 || isNilIdent(info, rs.Results[0]) {
+			continue
+		}
+		n++
+		matched := false
+		for _, ft := range c.FactsAt(f, rs, false) {
+			if ft.Kind != "cond" || !ft.Pos {
+				continue
+			}
+			call, ok := ast.Unparen(ft.Cond).(*ast.CallExpr)
+			if !ok || FullName(Callee(info, call)) != "regexp.Regexp.MatchString" {
+				continue
+			}
+			matched = true
+			if se, ok := call.Fun.(*ast.SelectorExpr); ok {
+				if v, ok := ObjOf(info, se.X).(*types.Var); ok {
+					if src, ok := c.regexpSourceOf(v); ok {
+						pattern, havePattern = src, true
+					}
+				}
+			}
+		}
+		if !matched {
+			okAll = false
+		}
+	}
+	r.Check(n > 0 && okAll, "ytypes.sanitizeJSON:decimal64:lexical", c.Pos(arm.Node.Pos()), "every parsed value is returned under a successful pattern match",
+		"the decimal64 arm of sanitizeJSON returns what strconv.ParseFloat produced without a lexical check of the string: \"NaN\", \"Inf\", \"1e3\", \"0x1p-2\" and \"1_0\" are stored as NaN, +Inf, 1000, 0.25 and 10 instead of being rejected")
+	if !havePattern {
+		if n > 0 && okAll {
+			r.Und("ytypes.sanitizeJSON:decimal64:pattern", c.Pos(arm.Node.Pos()), "the pattern matched against is not a package-level regexp.MustCompile(<constant>)")
+		}
+		return
+	}
+	re, err := regexp.Compile(pattern)
+	if err != nil {
+		r.Bad("ytypes.sanitizeJSON:decimal64:pattern", c.Pos(arm.Node.Pos()), "the decimal64 pattern "+pattern+" does not compile: "+err.Error())
+		return
+	}
+	var wrong []string
+	for _, w := range []struct {
+		s    string
+		want bool
+	}{{"0", true}, {"42", true}, {"-0.25", true}, {"+3", true}, {"1.50", true}, {"9223372036854775.807", true},
+		{"NaN", false}, {"Inf", false}, {"-infinity", false}, {"1e3", false}, {"0x1p-2", false}, {"1_0", false}, {"", false}, {".5", false}, {"5.", false}, {"+-1", false}, {" 1", false}, {"1 ", false}, {"1.2.3", false}, {"1\n", false}} {
+		if re.MatchString(w.s) != w.want {
+			wrong = append(wrong, fmt.Sprintf("%q", w.s))
+		}
+	}
+	r.Check(len(wrong) == 0, "ytypes.sanitizeJSON:decimal64:pattern", c.Pos(arm.Node.Pos()), "pattern "+pattern+" accepts exactly the decimal64 lexical form on the witness table",
+		"the decimal64 pattern "+pattern+" decides these witnesses wrongly: "+strings.Join(wrong, ", "))
+}
+
+// regexpSourceOf: the constant pattern of a package-level `var v = regexp.MustCompile(<const>)`.
+func (c *Ctx) regexpSourceOf(v *types.Var) (string, bool) {
+	if v.Pkg() == nil {
+		return "", false
+	}
+	for _, p := range c.All {
+		if p.Types != v.Pkg() {
+			continue
+		}
+		for _, file := range p.Syntax {
+			for _, d := range file.Decls {
+				gd, ok := d.(*ast.GenDecl)
+				if !ok {
+					continue
+				}
+				for _, sp := range gd.Specs {
+					vs, ok := sp.(*ast.ValueSpec)
+					if !ok {
+						continue
+					}
+					for i, nm := range vs.Names {
+						if p.TypesInfo.ObjectOf(nm) != v || i >= len(vs.Values) {
+							continue
+						}
+						call, ok := vs.Values[i].(*ast.CallExpr)
+						if !ok || len(call.Args) != 1 {
+							return "", false
+						}
+						if fn := FullName(Callee(p.TypesInfo, call)); fn != "regexp.MustCompile" && fn != "regexp.Compile" {
+							return "", false
+						}
+						tv, ok := p.TypesInfo.Types[call.Args[0]]
+						if !ok || tv.Value == nil || tv.Value.Kind() != constant.String {
+							return "", false
+						}
+						return constant.StringVal(tv.Value), true
+					}
+				}
+			}
+		}
+	}
+	return "", false
 }
